@@ -184,7 +184,16 @@ pub fn leg_faults(thorough: bool) -> Value {
                     }
                 };
                 if let Some(b) = bad {
-                    violations.push(json!({"tags": ["C05"], "what": format!("{b}; {what_fault}; outcome {:?}", out), "trace": run.trace, "state_before": format!("{before:?}"), "state_after": format!("{raw_c:?}")}));
+                    // an ANSWER given although a look-up failed is also a wrong verdict of that operation (gcv.answer_sound / av.answer_sound)
+                    let mut tags = vec!["C05"];
+                    if faulted && matches!(out, Out::Ok(_)) {
+                        match target {
+                            Op::Gcv(..) => tags.push("C08"),
+                            Op::AddVersion(..) => tags.push("C02"),
+                            _ => {}
+                        }
+                    }
+                    violations.push(json!({"tags": tags, "what": format!("{b}; {what_fault}; outcome {:?}", out), "trace": run.trace, "state_before": format!("{before:?}"), "state_after": format!("{raw_c:?}")}));
                     continue;
                 }
                 if samples.len() < 4 && faulted {
